@@ -754,28 +754,24 @@ def _flat_build(d):
 CONTRACTS["ufo2ft.filters.flattenComponents:_flattenComponent"].runtime = Runtime(_flat_cases, _flat_build)
 
 # =====================================================================================================
-# util.getMaxComponentDepth — depth-first walk over the component graph with a shared `visited` set and a `rec_stack`.
+# util.getMaxComponentDepth (body of /repo c48a3b0: `visited` is a MEMO name -> height of that composite's own tree; `rec_stack` the names
+# of the activations in progress).
 #
-# Deductive statement (all component graphs, any size): on every glyph set that admits a RANK function (rank[base] < rank[glyph] for
-# every component whose base is present, rank >= 1 for glyphs with components — i.e. on every ACYCLIC graph; the least such function is
-# the height of the component tree) the function
-#   * never raises InvalidFontData                      (so: InvalidFontData  ==>  the graph has a cycle),
-#   * returns maxComponentDepth            for a glyph without components,
-#             >= maxComponentDepth + 1     for a glyph with components,
-#             <= maxComponentDepth + rank  (for the least rank: <= the true height; the function may UNDER-count when a
-#                                          sub-composite was already visited through another branch, hence no equality),
-#   * leaves rec_stack as it found it, only adds to `visited`, and adds the glyph's own name.
-# Termination (measure argument): an activation that gets past the early return requires `glyph.name not in visited` (proved at the
-# recursive call site) and establishes `glyph.name in visited`; `visited` only grows (proved).  Hence the names of the activations of
-# one top-level call are pairwise distinct keys of the glyph set: at most len(glyphSet) activations, each with a finite loop.  (The
-# engine has no cardinality of symbolic sets, so the final pigeonhole step is this paragraph, not an obligation.)
-# `#rec`: an activation that RECEIVES the two shared containers (every recursive call); `#top`: the two-argument call of the callers,
-# verified from the same body (its recursive calls go through `#rec`).
+# Deductive statement (all component graphs that admit a RANK function — rank[base] < rank[glyph] for every present base, i.e. every
+# ACYCLIC graph):
+#   * EXACT VALUE: result == maxComponentDepth + height(glyph), height(g) = 0 if g has no components, else 1 + max(height(b) for the bases b
+#     of g that are in the glyph set) (1 if none is) — the spec function `gheight`, defined by recursion over the components;
+#   * MEMO: every entry of `visited` is the height of its glyph — assumed on entry, re-established on exit, entries are only added;
+#   * never raises InvalidFontData (so: InvalidFontData  ==>  the graph has a cycle); rec_stack is left as it was found.
+# (Before the fix c48a3b0 the function returned the height of the depth-first FIRST-VISIT tree — a sub-composite reached a second time was
+#  not descended into again: finding F-C02-1, fixed; the pre-fix body fails `exact-value`, see notes/C02.md.)
+# Termination: a recursive activation is only started for a base that is neither on rec_stack (raise) nor in the memo, its name stays on
+# rec_stack while it runs and is in the memo afterwards; on ranked glyph sets the rank strictly decreases along the recursion.
 # The converse "a reachable cycle ==> InvalidFontData" is a transitive-closure statement: exhaustive enumeration in vcheck/hooks/c02.py.
 
 
 def _true_heights(gs):
-    """run-time view of `rank`: the height of every glyph's component tree (None-free only on acyclic glyph sets)"""
+    """run-time view of `rank`: the height of every glyph's component tree (-1 everywhere on a cyclic glyph set: precondition false)"""
     memo, active = {}, set()
 
     def h(n):
@@ -795,60 +791,54 @@ def _true_heights(gs):
     try:
         return {n: h(n) for n in gs}
     except ValueError:
-        return {n: -1 for n in gs}  # cyclic: the `rank` precondition is false, the case is skipped
+        return {n: -1 for n in gs}
 
 
 CLASSES["C02_FGlyphSet"].derived["rank"] = lambda ex, st, self: Val(T.Map(STR, INT), z3.Function("c02_rank", T.RefSort, z3.ArraySort(z3.StringSort(), z3.IntSort()))(lift(self)))
 CLASSES["C02_FGlyphSet"].views["rank"] = _true_heights
+
+
+@specfn(INT, gs=Ref("C02_FGlyphSet"), name=STR, i=INT, h=INT)
+def gheight_from(gs, name, i, h):
+    """max(h, 1 + height(b) for the bases b of the components i, i+1, .. of glyph `name` that are in the glyph set)"""
+    comps = gs.glyphs[name].components
+    if i >= len(comps):
+        return h
+    b = comps[i].baseGlyph
+    if b in gs.glyphs:
+        return gheight_from(gs, name, i + 1, max(h, 1 + gheight(gs, b)))
+    return gheight_from(gs, name, i + 1, h)
+
+
+@specfn(INT, gs=Ref("C02_FGlyphSet"), name=STR)
+def gheight(gs, name):
+    """height of the component tree of glyph `name`: 0 without components, else 1 + the largest height of a base that is in the glyph set"""
+    if len(gs.glyphs[name].components) == 0:
+        return 0
+    return gheight_from(gs, name, 0, 1)
+
 
 _GS = "glyphSet.glyphs"
 _RANKED = (f"all({_GS}[n].name == n and glyphSet.rank[n] >= 0 and implies(len({_GS}[n].components) > 0, glyphSet.rank[n] >= 1 and "
            f"all(implies(c.baseGlyph in {_GS}, glyphSet.rank[c.baseGlyph] < glyphSet.rank[n]) for c in {_GS}[n].components)) for n in glyphSet.names)")
 _IN_SET = f"glyph.name in {_GS} and {_GS}[glyph.name] == glyph"
 _HASC = "len(glyph.components) > 0"
-_WALK = Tuple(INT, Set(STR))
-
-
-@specfn(_WALK, gs=Ref("C02_FGlyphSet"), name=STR, i=INT, V=Set(STR), d=INT)
-def gmcd_loop(gs, name, i, V, d):
-    """(depth, visited) after the components i, i+1, .. of glyph `name` were handled, starting from (d, V): a base that is missing or already
-    in V contributes nothing; any other base b contributes 1 + the first-visit height below b and adds what its walk visits."""
-    comps = gs.glyphs[name].components
-    if i >= len(comps):
-        return (d, V)
-    b = comps[i].baseGlyph
-    if b in gs.glyphs and b not in V:
-        r = gmcd_walk(gs, b, V)
-        return gmcd_loop(gs, name, i + 1, r[1], max(d, 1 + r[0]))
-    return gmcd_loop(gs, name, i + 1, V, d)
-
-
-@specfn(_WALK, gs=Ref("C02_FGlyphSet"), name=STR, V=Set(STR))
-def gmcd_walk(gs, name, V):
-    """THE FUNCTION THE CODE COMPUTES: (height of the depth-first FIRST-VISIT tree below glyph `name`, given that the names in V were visited
-    before; the visited set afterwards).  It is the height of the component tree only when no sub-composite is shared between two branches:
-    a glyph reached a second time is NOT descended into again, whatever depth it was first met at (known finding F-C02-1)."""
-    if len(gs.glyphs[name].components) == 0:
-        return (0, V)
-    return gmcd_loop(gs, name, 0, V | {name}, 1)
-
-
-_GMCD_POST = {
-    "leaf": f"implies(not {_HASC}, result == maxComponentDepth)",
-    "composite-at-least-one": f"implies({_HASC}, result >= maxComponentDepth + 1)",
-    "at-most-height": "result <= maxComponentDepth + glyphSet.rank[glyph.name]",
-}
+_MEMO = "all(n in glyphSet.glyphs and {v}[n] == gheight(glyphSet, n) for n in {v})"
+# the glyph and component objects of the glyph set exist (no dangling references in the heap) — stated because the definitional instances of
+# the spec functions read them "as of function entry"
+_ALLOC = f"all(allocated({_GS}[n]) and all(allocated(c) for c in {_GS}[n].components) for n in glyphSet.names)"
+_MEMO_T = Dict(STR, INT)
 _GMCD_LOOP = {
     "for component in glyph.components": Loop(
         index="i",
         invariants={
-            "depth-lower": "maxComponentDepth >= initialMaxComponentDepth",
-            "depth-upper": "maxComponentDepth <= initialMaxComponentDepth - 1 + glyphSet.rank[glyph.name]",
-            "visited-grows": "all(n in visited for n in V1)",
+            # what remains to be done, as the spec function: finishing the fold from (i, height) gives the glyph's height
+            "exact": "gheight_from(glyphSet, glyph.name, i, height) == gheight(glyphSet, glyph.name)",
+            "height-at-least-one": "height >= 1",
+            "memo": _MEMO.format(v="visited"),
+            "memo-grows": "all(n in visited and visited[n] == V0[n] for n in V0)",
             "stack": "rec_stack == RS1",
             "stack-ranks": "all(glyphSet.rank[rec_stack[k]] >= glyphSet.rank[glyph.name] for k in range(len(rec_stack)))",
-            # what remains to be done, as the spec function: finishing the loop from here gives the walk's result
-            "exact": "gmcd_loop(glyphSet, glyph.name, i, visited, maxComponentDepth - MCD0) == WALK0",
         },
     )
 }
@@ -857,80 +847,87 @@ _GMCD_HINTS = {"rec_stack.append(glyph.name)": [
     "len(rec_stack) == len(RS0) + 1 and rec_stack[len(RS0)] == glyph.name",
     "all(rec_stack[k] == RS0[k] for k in range(len(RS0)))",
     "all(glyphSet.rank[rec_stack[k]] >= glyphSet.rank[glyph.name] for k in range(len(rec_stack)))",
+], "if component.baseGlyph not in visited:": [
+    # memo hit or fresh result: either way the entry of this base is its height (the value the fold of the spec function uses)
+    "baseGlyph.name == component.baseGlyph and component == glyphSet.glyphs[glyph.name].components[i]",
+    "component.baseGlyph in visited and visited[component.baseGlyph] == gheight(glyphSet, component.baseGlyph)",
+], "height = max(height, 1 + visited[component.baseGlyph])": [
+    "gheight_from(glyphSet, glyph.name, i + 1, height) == gheight(glyphSet, glyph.name)",
 ]}
+_GMCD_KW = dict(
+    returns=INT,
+    calls={"ufo2ft.util:getMaxComponentDepth": "ufo2ft.util:getMaxComponentDepth#rec"},
+    raises={"InvalidFontData": "False"},  # never on a ranked (acyclic) glyph set
+    ghost={"rec_stack.append(glyph.name)": ["RS1 = rec_stack"]},
+    hints=_GMCD_HINTS,
+    merge_branches=False,  # the ways a component is handled (missing base / memo hit / descended into) stay separate paths
+    seq_positions=True,  # `x in rec_stack` comes with a position witness
+    dict_key_positions=False,
+    loops=_GMCD_LOOP,
+)
 
-_GMCD_PROPS: list = ["C02"]
-
+# `#rec`: an activation that RECEIVES the memo and the stack (every recursive call)
 contract(
     "ufo2ft.util:getMaxComponentDepth",
     name="rec",
-    props=_GMCD_PROPS,
-    calls={"ufo2ft.util:getMaxComponentDepth": "ufo2ft.util:getMaxComponentDepth#rec"},
-    alias_ok=("visited", "V1", "rec_stack", "RS1"),  # V1 / RS1 are ghost SNAPSHOTS (values), not second holders of the containers
-    params={"glyph": Ref("C02_FGlyph"), "glyphSet": Ref("C02_FGlyphSet"), "maxComponentDepth": INT, "visited": Set(STR), "rec_stack": List(STR)},
-    returns=INT,
+    props=["C02"],
+    params={"glyph": Ref("C02_FGlyph"), "glyphSet": Ref("C02_FGlyphSet"), "maxComponentDepth": INT, "visited": _MEMO_T, "rec_stack": List(STR)},
     modifies=["visited", "rec_stack"],
+    alias_ok=("visited", "V0", "rec_stack", "RS1", "RS0"),  # V0 / RS0 / RS1 are ghost SNAPSHOTS (values), not second holders of the containers
     requires=[
-        _RANKED,  # acyclic: a rank function exists (see above)
+        _RANKED,  # acyclic: a rank function exists
         _IN_SET,  # the glyph is the glyph set's entry of its own name (call sites: glyphSet[name], allGlyphs.items())
-        f"implies({_HASC}, glyph.name not in visited)",  # the function's own `assert`; MEASURE: this activation's name is new ...
+        _ALLOC,
+        _MEMO.format(v="visited"),  # the memo holds heights
         "all(glyphSet.rank[s] > glyphSet.rank[glyph.name] for s in rec_stack)",  # the glyphs on the recursion stack are proper ancestors
     ],
     ensures={
-        **_GMCD_POST,
-        "visited-only-grows": "all(n in visited for n in old(visited))",  # MEASURE: ... `visited` never shrinks ...
-        "own-name-visited": f"implies({_HASC}, glyph.name in visited)",  # MEASURE: ... and this name is in it afterwards
+        "exact-value": "result == maxComponentDepth + gheight(glyphSet, glyph.name)",
+        "leaf": f"implies(not {_HASC}, result == maxComponentDepth and visited == old(visited))",
+        "composite-at-least-one": f"implies({_HASC}, result >= maxComponentDepth + 1)",
+        "memo-holds-heights": _MEMO.format(v="visited"),
+        "memo-only-grows": "all(n in visited and visited[n] == old(visited)[n] for n in old(visited))",
         "stack-restored": "rec_stack == old(rec_stack)",
-        "leaf-touches-nothing": f"implies(not {_HASC}, visited == old(visited))",
-        # EXACTLY the first-visit height (see gmcd_walk), and exactly the names that walk visits
-        "exact-value": "result == maxComponentDepth + gmcd_walk(glyphSet, glyph.name, old(visited))[0]",
-        "exact-visited": "visited == gmcd_walk(glyphSet, glyph.name, old(visited))[1]",
     },
-    raises={"InvalidFontData": "False"},  # never on a ranked (acyclic) glyph set
-    canaries={"always-one": "result == maxComponentDepth + 1", "exact-height": "result == maxComponentDepth + glyphSet.rank[glyph.name]"},
-    ghost_vars={"V1": (Set(STR), "set()"), "RS1": (List(STR), "[]"), "RS0": (List(STR), "rec_stack"), "MCD0": (INT, "maxComponentDepth"),
-                "WALK0": (_WALK, "gmcd_walk(glyphSet, glyph.name, visited)")},
-    ghost={"rec_stack.append(glyph.name)": ["V1 = visited", "RS1 = rec_stack"]},
-    hints=_GMCD_HINTS,
-    merge_branches=False,  # the three ways a component is handled (missing / descended into / already visited) stay separate paths
-    seq_positions=True,  # `x in rec_stack` comes with a position witness
-    loops=_GMCD_LOOP,
+    canaries={"always-one": "result == maxComponentDepth + 1", "ignores-depth": "result == gheight(glyphSet, glyph.name)"},
+    ghost_vars={"V0": (_MEMO_T, "visited"), "RS1": (List(STR), "[]"), "RS0": (List(STR), "rec_stack")},
     locals={"baseGlyph": Ref("C02_FGlyph")},
+    **_GMCD_KW,
 )
 
-# the function as its callers use it (getMaxComponentDepths, the filters' sort keys): two arguments, fresh `visited` / `rec_stack`
+# `#top`: the function as its callers use it (getMaxComponentDepths, the filters' sort keys): two arguments, fresh memo / stack
 contract(
     "ufo2ft.util:getMaxComponentDepth",
     name="top",
-    props=_GMCD_PROPS,
+    props=["C02"],
     params={"glyph": Ref("C02_FGlyph"), "glyphSet": Ref("C02_FGlyphSet")},
-    returns=INT,
-    calls={"ufo2ft.util:getMaxComponentDepth": "ufo2ft.util:getMaxComponentDepth#rec"},
-    alias_ok=("visited", "V1", "rec_stack", "RS1"),
-    requires=[_RANKED, _IN_SET],
+    alias_ok=("visited", "V0", "rec_stack", "RS1", "RS0"),
+    requires=[_RANKED, _IN_SET, _ALLOC],
     ensures={
+        "exact-value": "result == gheight(glyphSet, glyph.name)",  # THE height of the glyph's component tree
         "simple-is-zero": f"implies(not {_HASC}, result == 0)",
         "composite-at-least-one": f"implies({_HASC}, result >= 1)",
-        "at-most-height": "result <= glyphSet.rank[glyph.name]",
-        "exact-value": "result == gmcd_walk(glyphSet, glyph.name, set())[0]",  # the first-visit height from an empty `visited`
     },
-    raises={"InvalidFontData": "False"},
     canaries={"always-zero": "result == 0"},
-    ghost_vars={"V1": (Set(STR), "set()"), "RS1": (List(STR), "[]"), "RS0": (List(STR), "[]"), "MCD0": (INT, "0"),
-                "WALK0": (_WALK, "gmcd_walk(glyphSet, glyph.name, set())")},
-    ghost={"rec_stack.append(glyph.name)": ["V1 = visited", "RS1 = rec_stack"]},
-    hints=_GMCD_HINTS,
-    merge_branches=False,  # the three ways a component is handled (missing / descended into / already visited) stay separate paths
-    seq_positions=True,
-    loops=_GMCD_LOOP,
-    locals={"baseGlyph": Ref("C02_FGlyph"), "visited": Set(STR), "rec_stack": List(STR)},
+    ghost_vars={"V0": (_MEMO_T, "{}"), "RS1": (List(STR), "[]"), "RS0": (List(STR), "[]")},
+    locals={"baseGlyph": Ref("C02_FGlyph"), "visited": _MEMO_T, "rec_stack": List(STR)},
+    **_GMCD_KW,
 )
+
 
 def _gmcd_cases(rng, n):
     from vcheck.hooks import c15_render as R
 
     out = []
-    for k in range(n):
+    # the input of finding F-C02-1 (fixed in c48a3b0): a sub-composite shared between two branches, met first at the SHALLOWER depth
+    tri = [[[0, 0, "line"], [100, 0, "line"], [100, 100, "line"]]]
+    I6 = [1, 0, 0, 1, 0, 0]
+    shared = {"E": {"width": 500, "height": 0, "contours": tri, "components": [], "anchors": []},
+              "D": {"width": 500, "height": 0, "contours": [], "components": [["E", I6]], "anchors": []},
+              "B": {"width": 500, "height": 0, "contours": [], "components": [["D", I6]], "anchors": []},
+              "A": {"width": 500, "height": 0, "contours": [], "components": [["D", I6], ["B", I6]], "anchors": []}}
+    out.append({"glyphs": shared, "glyph": "A", "depth": 0, "visited": [], "ufolib": "ufoLib2"})
+    for k in range(n - 1):
         desc = R.rand_graph(rng, n_base=2, n_comp=rng.randint(1, 5), depth=4, curves=None, mixed=True)
         names = sorted(desc)
         if rng.random() < 0.3:  # a dangling reference
@@ -939,7 +936,7 @@ def _gmcd_cases(rng, n):
                 desc[g]["components"].append(["missing", [1, 0, 0, 1, 0, 0]])
         glyph = rng.choice(names)
         others = [x for x in names if x != glyph]
-        visited = rng.sample(others, rng.randint(0, len(others))) if rng.random() < 0.5 else []
+        visited = rng.sample(others, rng.randint(0, len(others))) if rng.random() < 0.5 else []  # names whose (true) height is already in the memo
         out.append({"glyphs": desc, "glyph": glyph, "depth": rng.randint(0, 3), "visited": visited, "ufolib": ["ufoLib2", "defcon"][k % 2]})
     return out
 
@@ -947,7 +944,8 @@ def _gmcd_cases(rng, n):
 def _gmcd_build(d):
     f = rtlib.build_ufo({"glyphs": d["glyphs"]}, d["ufolib"])
     gs = {g.name: g for g in f}
-    return {"glyph": gs[d["glyph"]], "glyphSet": gs, "maxComponentDepth": d["depth"], "visited": set(d["visited"]), "rec_stack": []}
+    hts = _true_heights(gs)
+    return {"glyph": gs[d["glyph"]], "glyphSet": gs, "maxComponentDepth": d["depth"], "visited": {n: hts[n] for n in d["visited"]}, "rec_stack": []}
 
 
 CONTRACTS["ufo2ft.util:getMaxComponentDepth#rec"].runtime = Runtime(_gmcd_cases, _gmcd_build)
@@ -1381,6 +1379,7 @@ def _sorted_permutation(ex, st, args, kwargs, node):
 
 _SORT_LOOP = "for name in sorted(self.glyphOrder, key=lambda n: maxComponentDepths.get(n, 0))"
 _GCG = "ufo2ft.outlineCompiler:BaseOutlineCompiler.getCompiledGlyphs"
+_HAS_GLYF = "('glyf' in self.tables and 'loca' in self.tables)"
 contract(
     "ufo2ft.outlineCompiler:OutlineTTFCompiler.setupTable_glyf",
     props=["C02"],
@@ -1389,28 +1388,29 @@ contract(
     calls={_GCG: _GCG + "#C02_TTCompiler.cached", _GCG + "#C02_TTCompiler": _GCG + "#C02_TTCompiler.cached"},
     models={"builtins.sorted": _sorted_permutation},
     requires=[
-        "'glyf' in self.tables and 'loca' in self.tables",
         # the records were compiled before, one for every name of the order (postcondition `every-name` of getCompiledGlyphs)
         "self._compiledGlyphs is not None and all(n in self._compiledGlyphs for n in set(self.glyphOrder))",
     ],
     modifies=["TTFont.tbl:glyf", "TTFont.tbl:loca", "self._maxComponentDepths", f"{_GLYF}.glyphs", f"{_GLYF}.glyphOrder"],
     ensures={
-        "glyph-order": f"{_GT}.glyphOrder == self.glyphOrder",
+        # without 'glyf' / 'loca' among the tables to build: nothing happens
+        "not-requested-untouched": f"implies(not {_HAS_GLYF}, self.otf.get('glyf') == old(self.otf.get('glyf')))",
+        "glyph-order": f"implies({_HAS_GLYF}, {_GT}.glyphOrder == self.glyphOrder)",
         # (for the arbitrary name `probe`)  a name of the glyph order is in the table, and what is stored under it is THE record
         # compileGlyphs made for that name — the same object, so everything the compileGlyphs / getCompiledGlyphs contracts say about it
         # (own source glyph, the compiler's glyph set, rounding, empty record for unsupported curves) holds for the table entry
-        "every-glyph-stored": f"implies(probe in self.glyphOrder, probe in {_GT}.glyphs and {_GT}.glyphs[probe] == self._compiledGlyphs[probe])",
+        "every-glyph-stored": f"implies({_HAS_GLYF} and probe in self.glyphOrder, probe in {_GT}.glyphs and {_GT}.glyphs[probe] == self._compiledGlyphs[probe])",
         # ... and nothing else is in the table
-        "nothing-else": f"implies(probe in {_GT}.glyphs, probe in self.glyphOrder)",
+        "nothing-else": f"implies({_HAS_GLYF} and probe in {_GT}.glyphs, probe in self.glyphOrder)",
         "cache-untouched": "self._compiledGlyphs == old(self._compiledGlyphs)",
     },
     # the same for EVERY name, and the depth order of insertion, evaluated natively on real compilers
     bounded_ensures={
-        "all-names": f"set({_GT}.glyphs) == set(self.glyphOrder) and all({_GT}.glyphs[n] is self._compiledGlyphs[n] for n in self.glyphOrder)",
-        "bases-before-composites": f"all(self.getMaxComponentDepths().get(list({_GT}.glyphs)[k], 0) <= self.getMaxComponentDepths().get(list({_GT}.glyphs)[k + 1], 0) for k in range(len({_GT}.glyphs) - 1))",
+        "all-names": f"not {_HAS_GLYF} or (set({_GT}.glyphs) == set(self.glyphOrder) and all({_GT}.glyphs[n] is self._compiledGlyphs[n] for n in self.glyphOrder))",
+        "bases-before-composites": f"not {_HAS_GLYF} or all(self.getMaxComponentDepths().get(list({_GT}.glyphs)[k], 0) <= self.getMaxComponentDepths().get(list({_GT}.glyphs)[k + 1], 0) for k in range(len({_GT}.glyphs) - 1))",
     },
-    raises={"InvalidFontData": "depth_cycle(self)"},
-    canaries={"empty-table": f"probe in self.glyphOrder and probe not in {_GT}.glyphs"},
+    raises={"InvalidFontData": f"{_HAS_GLYF} and depth_cycle(self)"},
+    canaries={"empty-table": f"{_HAS_GLYF} and probe in self.glyphOrder and probe not in {_GT}.glyphs"},
     # DONE: the names stored so far (ghost)
     ghost_vars={"DONE": (Set(STR), "set()")},
     ghost={"glyf[name] = ttGlyph": ["DONE = DONE | {name}"]},
